@@ -643,7 +643,32 @@ func (m *ModAnalysis) analyse(f *ssa.Function) {
 		case "copy":
 			writeAll(a.derive(com.Args[0]), "[*]")
 			if sl, ok := com.Args[0].Type().Underlying().(*types.Slice); ok && isRefLike(sl.Elem()) {
-				addCap(a.ext(a.derive(com.Args[0]), "[*]"), a.ext(a.derive(com.Args[1]), "[*]"))
+				// the elements of dst now alias the elements of src (slices of slices: the inner arrays are shared)
+				src := locSet{}
+				for l := range a.ext(a.derive(com.Args[1]), "[*]") {
+					if strings.HasPrefix(locRoot(l), "a:") {
+						for x := range m.pts[f][l] {
+							src[x] = true
+						}
+						continue
+					}
+					src[l] = true
+				}
+				for d := range a.ext(a.derive(com.Args[0]), "[*]") {
+					if strings.HasPrefix(locRoot(d), "a:") {
+						ps := m.pts[f][d]
+						if ps == nil {
+							ps = locSet{}
+							m.pts[f][d] = ps
+						}
+						for x := range src {
+							if ps.add(x) {
+								m.changed = true
+							}
+						}
+					}
+				}
+				addCap(a.ext(a.derive(com.Args[0]), "[*]"), src)
 			}
 		case "append":
 			// append(dst, src...) with reference-like elements ([]float64 pages, pointers, maps): the elements of
